@@ -304,6 +304,60 @@ def run(chk):
 
     _noops_rule(chk, prog)
     _movopt_rule(chk, prog)
+    _jumppair_rule(chk, prog)
+
+
+def _jumppair_rule(chk, prog):
+    """janetc_while compiles the loop test twice: `ifnjmp` leaves the loop when the condition fails, `ifjmp` (used when the
+    loop is re-compiled as a self-calling function because its body creates closures) continues while it holds.  The
+    nil-comparison fast paths replace both; on every path the two must stay each other's negation, or the two
+    compilation routes of one loop test different things."""
+    rule = "C15-JUMPPAIR"
+    chk.rule(rule, "the 'continue' and 'exit' jump opcodes chosen for one loop condition are complementary on every path")
+    COMPL = {"JOP_JUMP_IF": "JOP_JUMP_IF_NOT", "JOP_JUMP_IF_NOT": "JOP_JUMP_IF",
+             "JOP_JUMP_IF_NIL": "JOP_JUMP_IF_NOT_NIL", "JOP_JUMP_IF_NOT_NIL": "JOP_JUMP_IF_NIL"}
+    n = 0
+    for fn in prog.tus["specials.c"].funcs.values():
+        vars_ = [x.name for x in fn.nodes if x.k == "vardecl" and x.kids and is_ref(strip_casts(x.kids[0]))
+                 and strip_casts(x.kids[0]).name in COMPL]
+        if len(vars_) < 2:
+            continue
+        chk.analysed(fn)
+
+        def transfer(st, x):
+            tgt = val = None
+            if x.k == "vardecl" and x.name in vars_ and x.kids:
+                tgt, val = x.name, strip_casts(x.kids[0])
+            elif x.k == "asg" and x.op == "=" and is_ref(x.kids[0]) and x.kids[0].name in vars_:
+                tgt, val = x.kids[0].name, strip_casts(x.kids[1])
+            if tgt:
+                st = frozenset(f for f in st if f[0] != tgt)
+                if is_ref(val) and val.name in COMPL:
+                    st = st | {(tgt, val.name)}
+            return st
+        IN, OUT, T = flow.forward_paths(fn, frozenset(), transfer)
+        uses = [c for c in fn.nodes if c.k == "call" and c.callee and c.callee.startswith("janetc_emit")
+                and len(c.args) > 1 and is_ref(strip_casts(c.args[1])) and strip_casts(c.args[1]).name in vars_]
+        for x, S in flow.states_at(fn, IN, T):
+            if x not in uses:
+                continue
+            n += 1
+            chk.instance(rule)
+            bad = None
+            for ps in S:
+                d = dict(ps)
+                if len(d) == 2:
+                    a, b = [d[v] for v in vars_[:2]]
+                    if COMPL.get(a) != b:
+                        bad = (a, b)
+            if bad:
+                chk.violation(rule, "specials.c", fn.name, "/".join(vars_[:2]), x.loc,
+                              "on some path `%s` is %s while `%s` is %s - not each other's negation: the plain loop and the loop "
+                              "re-compiled for closures test different conditions (e.g. truthy instead of not-nil: false ends it)"
+                              % (vars_[0], bad[0], vars_[1], bad[1]))
+            else:
+                chk.ok(rule, "%s: %s at %s complementary to its sibling on every path" % (fn.name, strip_casts(x.args[1]).name, x.loc))
+    chk.floor(rule, 2, n)
 
 
 def _noops_rule(chk, prog):
